@@ -79,6 +79,12 @@ def rand_path(rng):
     for _ in range(rng.choice([0, 1, 1, 1, 2, 2, 3, 4])):
         e = {"names": [rand_ident(rng, rng.random() < 0.3) for _ in range(rng.choice([1, 1, 1, 2, 3]))],
              "parts": [], "fresh": rng.random() < 0.4, "separator": rand_str(rng) if rng.random() < 0.25 else None}
+        if rng.random() < 0.06:
+            # an explicit class attribute FOLLOWED by class shorthands: the shorthands add to it
+            e["parts"].append(("attr", "class", rng.choice(["a", "big red", "x-1"])))
+            e["parts"] += [("class", rand_ident(rng, False)) for _ in range(rng.randint(1, 2))]
+            els.append(e)
+            continue
         for _ in range(rng.choice([0, 0, 1, 1, 2, 3])):
             if rng.random() < 0.5:
                 e["parts"].append(("class", rand_ident(rng)))
